@@ -824,7 +824,8 @@ char * scpiheap_strndup(scpi_error_info_heap_t * heap, const char *s, size_t n) 
         return NULL;
     }
 
-    size_t len = SCPIDEFINE_strnlen(s, n) + 1; /* additional '\0' at end */
+    size_t slen = SCPIDEFINE_strnlen(s, n); /* characters to copy: s need not be terminated behind them */
+    size_t len = slen + 1; /* additional '\0' at end */
     if (len > heap->count) {
         return NULL;
     }
@@ -833,14 +834,16 @@ char * scpiheap_strndup(scpi_error_info_heap_t * heap, const char *s, size_t n) 
     size_t rem = heap->size - (&heap->data[heap->wr] - heap->data);
 
     if (len >= rem) {
-        memcpy(&heap->data[heap->wr], s, rem);
+        size_t part = (slen < rem) ? slen : rem;
+        memcpy(&heap->data[heap->wr], s, part);
         len = len - rem;
-        ptrs += rem;
+        ptrs += part;
+        slen -= part;
         heap->wr = 0;
         heap->count -= rem;
     }
 
-    memcpy(&heap->data[heap->wr], ptrs, len);
+    memcpy(&heap->data[heap->wr], ptrs, slen);
     heap->wr += len;
     heap->count -= len;
 
